@@ -827,8 +827,14 @@ class Runtime:
         return stdlib.binop(self, interp, op, a, b, node)
 
     # ------------------------------------------------------------------ misc protocol
+    after_await = None
+
     def await_value(self, interp, v):
-        return v     # coroutines run to completion at the call (DESIGN 3.4)
+        # coroutines run to completion at the call (DESIGN 3.4); control may pass to other tasks only here:
+        # in interference mode the unit's hook havocs the shared-write set under the rely condition (3.8)
+        if self.after_await is not None:
+            self.after_await(interp)
+        return v
 
     def truth_hook(self, v):
         from . import stdlib
